@@ -770,11 +770,11 @@ def spec_tie(ctx, cases):
 MANIFEST = {
     "category": "proof",
     "technique": "Coq proof per operator (implementation model vs TLA+/TLC spec over all representation values, any depth, well- or ill-typed) + differential correspondence of the model with distsys/tla + independent Python reference oracle",
-    "text": ("58 theorems in coq/Properties/C03.v, closed under the global context, of the shape allowed R (spec_op (norm args)) (ModuleOp args): proved outright for "
+    "text": ("64 theorems in coq/Properties/C03.v, closed under the global context, of the shape allowed R (spec_op (norm args)) (ModuleOp args): proved outright for "
              "+ - * ^ \\div % unary- .. <= < >= >, ~ <=> /\\ \\/ => IF Assert, \\in \\notin \\cap \\cup \\ \\subseteq IsFiniteSet Cardinality SUBSET UNION MakeSet \\X, "
-             "Head Tail Append SubSeq MakeTuple, :> @@ DOMAIN application MakeRecord [x \\in S |-> e], \\A \\E set refinement/comprehension CHOOSE, ToString, SelectElement; "
-             "partial with refutation witnesses for = # (incomparable kinds; tuple vs 1..n-function), Len and \\o on strings; record sets, function sets and EXCEPT are "
-             "covered by the tie and the oracle only; Seq and SelectSeq are known findings."),
+             "Head Tail Append SubSeq MakeTuple, :> @@ DOMAIN application MakeRecord record sets [S -> T] [x \\in S |-> e] EXCEPT (nested paths), \\A \\E set refinement/comprehension CHOOSE, "
+             "ToString, SelectElement; partial with refutation witnesses for = # (incomparable kinds; tuple vs 1..n-function), Len and \\o on strings, Seq, SelectSeq (known findings). "
+             "Base/Ops.v is itself compared with an independent Python reference on every case and, in the thorough tier, with TLC on thousands of constant expressions."),
     "level_note": ("11 defects of the pinned tree repaired by fix: commits (overflow of + - * unary-, ^ with bad exponents, .. at MaxInt32, \\div, %, SUBSET, UNION, Assert); "
                    "6 known findings with mechanically classified signatures. The tie is differential testing (1900 quick / 70000 thorough calls, 13 seeded mutations all caught)."),
 }
